@@ -12,13 +12,15 @@ use std::sync::Arc;
 fn nats(v: &[u64]) -> String { v.iter().map(|x| x.to_string()).collect::<Vec<_>>().join(",") }
 
 fn call_dcep_open(b: &[u8]) -> String {
-    match DataChannelOpen::unmarshal(b) {
+    let r = DataChannelOpen::unmarshal(b); super::mark_alloc();
+    match r {
         Ok(o) => { let _ = o.marshal(); format!("ok {}", nats(&[o.channel_type as u64, o.priority as u64, o.reliability_parameter as u64, o.label.len() as u64, o.protocol.len() as u64])) }
         Err(e) => { let t = e.to_string(); if t.contains("utf-8") || t.contains("UTF-8") { "err utf8".into() } else { format!("err {}", t.replace(' ', "_")) } }
     }
 }
 fn call_dcep_ack(b: &[u8]) -> String {
-    match DataChannelAck::unmarshal(b) { Ok(a) => format!("ok {}", a.message_type), Err(e) => format!("err {}", e.to_string().replace(' ', "_")) }
+    let r = DataChannelAck::unmarshal(b); super::mark_alloc();
+    match r { Ok(a) => format!("ok {}", a.message_type), Err(e) => format!("err {}", e.to_string().replace(' ', "_")) }
 }
 fn gen_str(rng: &mut Rng, max: u64) -> String { (0..rng.range(0, max)).map(|_| (b'a' + rng.below(26) as u8) as char).collect() }
 pub fn gen_dcep_open(rng: &mut Rng) -> Vec<u8> {
@@ -29,8 +31,8 @@ fn gen_dcep_ack(_rng: &mut Rng) -> Vec<u8> { DataChannelAck { message_type: 2 }.
 
 pub fn targets() -> Vec<Target> {
     vec![
-        Target { stream: "dcepopen", entry: "DataChannelOpen::unmarshal", call: call_dcep_open, valid: gen_dcep_open, alloc: Some((4, 256)), weight: 2 },
-        Target { stream: "dcepack", entry: "DataChannelAck::unmarshal", call: call_dcep_ack, valid: gen_dcep_ack, alloc: Some((1, 256)), weight: 1 },
+        Target { stream: "dcepopen", entry: "DataChannelOpen::unmarshal", call: call_dcep_open, valid: gen_dcep_open, alloc: Some((2, 0)), weight: 2 },
+        Target { stream: "dcepack", entry: "DataChannelAck::unmarshal", call: call_dcep_ack, valid: gen_dcep_ack, alloc: Some((0, 0)), weight: 1 },
     ]
 }
 
